@@ -212,7 +212,7 @@ func init() {
 					pqReaderK1(rep, m, e, k1)
 				}
 			})
-			if e != nil && e.ReadPos > 0 {
+			if e != nil && (e.Stats["rnext"] > 0 || e.Stats["readall"] > 0 || e.Stats["read"] > 0) {
 				rep.nontrivial(fmt.Sprintf("%s/%v", cfg, e.Stats))
 			}
 			if i < 2 {
